@@ -368,12 +368,15 @@ for k in w.keys():
 print(json.dumps(out))
 ''' % REPO
     seed = bytes(ctx.rng.randrange(256) for _ in range(32)).hex()
-    for label, envkey in (('encrypted', '11' * 32), ('plain', None)):
+    # the three documented ways to switch field encryption on: a key, a password, both; and off
+    for label, envkey in (('encrypted', {'DB_FIELD_ENCRYPTION_KEY': '11' * 32}), ('encrypted-by-password', {'DB_FIELD_ENCRYPTION_PASSWORD': 'correct horse'}),
+                          ('encrypted-key-and-password', {'DB_FIELD_ENCRYPTION_KEY': '22' * 32, 'DB_FIELD_ENCRYPTION_PASSWORD': 'battery staple'}), ('plain', None)):
         dd = fresh_datadir()
         env = dict(os.environ, BCL_DATA_DIR=dd)
         env.pop('DB_FIELD_ENCRYPTION_KEY', None)
+        env.pop('DB_FIELD_ENCRYPTION_PASSWORD', None)
         if envkey:
-            env['DB_FIELD_ENCRYPTION_KEY'] = envkey
+            env.update(envkey)
         p = subprocess.run([sys.executable, '-c', script, seed], capture_output=True, text=True, env=env, timeout=300)
         if p.returncode != 0:
             ctx.notes.append('db-encryption subprocess failed (%s): %s' % (label, p.stderr[-300:]))
@@ -391,9 +394,9 @@ print(json.dumps(out))
         ctx.evals += 1
         ctx.count('db-file-scan:' + label, len(data))
         ctx.nontrivial.add(hash(label))
-        if label == 'encrypted' and found:
+        if label.startswith('encrypted') and found:
             ctx.violation('plaintext private key material in the database file although field encryption is on',
-                          {'op': 'db-scan encrypted', 'encodings_found': sorted(set(found))[:6]})
+                          {'op': 'db-scan ' + label, 'encodings_found': sorted(set(found))[:6]})
         if label == 'plain':
             ctx.extra['plaintext_hits_without_encryption_key'] = len(found)
 
